@@ -1,66 +1,69 @@
 (* C15 — Reference names are validated like git; sanitizing always yields a valid name.
-   Only statements here; every proof is [exact <lemma>].
+   Only statements here; every proof is [exact <lemma of ProofsTop.v>].
    Model.v : gix-validate tag::name_inner (both modes), reference::{validate, name, name_partial,
-             name_partial_or_sanitize} as of the two `fix:` commits recorded in findings.txt.
+             name_partial_or_sanitize}, gix_ref::PartialName::join — the code as of the two `fix:`
+             commits recorded in findings.txt.
    Spec.v  : refs.c check_refname_component / check_refname_format (git 2.39), refname_is_safe's
              one-level rule.  [git_check s allow] = `git check-ref-format [--allow-onelevel] s` exits 0;
              [git_full_name s] = git_check s false || (git_check s true && one_level_safe s).
-   [is_ok o] = the call returned Ok. *)
+   [is_ok o] = the call returned Ok.  All statements quantify over ALL byte strings. *)
 From GixV.Base Require Import Bytes BytesFacts Outcome.
-From GixV.C15 Require Import Model Spec ProofsLoop ProofsValid ProofsGit.
+From GixV.C15 Require Import Model Spec ProofsValid ProofsTop.
 
-(* partial names: accepted exactly when `git check-ref-format --allow-onelevel` accepts — for ALL byte strings *)
+(* partial names: accepted exactly when `git check-ref-format --allow-onelevel` accepts *)
 Theorem partial_name_is_git : forall s, is_ok (ref_name_partial s) = git_check s true.
-Proof. intros s. rewrite git_check_valid, Bool.andb_true_r. exact (proj1 (ref_name_partial_ok s)). Qed.
+Proof. exact L_partial_name_is_git. Qed.
 
 (* full names: git's verdict, one-level names judged by git's one-level rule (A-Z and '_' only) *)
 Theorem full_name_is_git : forall s, is_ok (ref_name s) = git_full_name s.
-Proof. intros s. rewrite git_full_name_valid. exact (proj1 (ref_name_ok s)). Qed.
+Proof. exact L_full_name_is_git. Qed.
 
 (* the same, spelled out: a name with a slash is judged by plain `git check-ref-format`,
    a name without one by --allow-onelevel plus the one-level rule *)
 Theorem full_name_cases : forall s,
   (has_slash s = true -> is_ok (ref_name s) = git_check s false) /\
   (has_slash s = false -> is_ok (ref_name s) = git_check s true && one_level_safe s).
-Proof.
-  intros s. rewrite (proj1 (ref_name_ok s)), !git_check_valid. unfold valid_full, one_level_safe.
-  fold (upper_us s). split; intros ->; cbn [orb]; rewrite ?Bool.andb_true_r, ?Bool.andb_false_r; reflexivity.
-Qed.
+Proof. exact L_full_name_cases. Qed.
 
 (* tag names (gix_validate::tag::name) differ from partial reference names only in the name "@" *)
 Theorem tag_name_is_git_or_at : forall s, is_ok (tag_name s) = git_check s true || bytes_eqb s [at_].
-Proof.
-  intros s. rewrite (proj1 (tag_name_ok s)), git_check_valid, Bool.andb_true_r. unfold valid_partial.
-  destruct (bytes_eqb s [at_]) eqn:E.
-  - apply bytes_eqb_eq in E. subst s. reflexivity.
-  - cbn [negb]. rewrite Bool.andb_true_r, Bool.orb_false_r. reflexivity.
-Qed.
+Proof. exact L_tag_name_is_git_or_at. Qed.
 
 (* the validators never panic and never loop, and a successful validation returns its input unchanged *)
 Theorem validators_total : forall s,
   (ref_name s <> Panic /\ ref_name s <> OutOfFuel /\ forall o, ref_name s = Ok o -> o = s) /\
   (ref_name_partial s <> Panic /\ ref_name_partial s <> OutOfFuel /\ forall o, ref_name_partial s = Ok o -> o = s) /\
   (tag_name s <> Panic /\ tag_name s <> OutOfFuel /\ forall o, tag_name s = Ok o -> o = s).
-Proof.
-  intros s. split; [|split].
-  - exact (proj2 (ref_name_ok s)).
-  - exact (proj2 (ref_name_partial_ok s)).
-  - exact (proj2 (tag_name_ok s)).
-Qed.
+Proof. exact L_validators_total. Qed.
+
+(* converting ANY byte string into a partial name succeeds (no panic: the slices, the index
+   operations on the output buffer and the two `expect`s are all modelled), and the result passes
+   name_partial — equivalently `git check-ref-format --allow-onelevel` *)
+Theorem sanitize_valid : forall s, exists o,
+  ref_sanitize s = Ok o /\ is_ok (ref_name_partial o) = true /\ git_check o true = true.
+Proof. exact L_sanitize_valid. Qed.
+
+Theorem sanitize_total : forall s, ref_sanitize s <> Panic /\ ref_sanitize s <> OutOfFuel.
+Proof. exact L_sanitize_total. Qed.
 
 (* PartialName::join(base, component) is the partial-name check of base/component *)
 Theorem join_is_git : forall base comp,
   is_ok (partial_join base comp) = git_check (base ++ slash :: comp) true.
-Proof. intros. unfold partial_join. apply partial_name_is_git. Qed.
+Proof. exact L_join_is_git. Qed.
 
 (* the transcription of git's loop has enough fuel for every NUL-free name *)
 Theorem spec_total : forall s allow, existsb (beqb x00) s = false ->
   exists b, check_refname_format s allow = Ok b.
-Proof. exact check_refname_format_total. Qed.
+Proof. exact ProofsGit.check_refname_format_total. Qed.
 
-(* non-vacuity / sanity *)
+(* non-vacuity / sanity: accepted and rejected names, sanitised witnesses of the two fixed defects *)
 Example ex_accept : is_ok (ref_name (bs "refs/heads/main")) = true /\ is_ok (ref_name (bs "FETCH_HEAD")) = true
   /\ is_ok (ref_name (bs "main")) = false /\ is_ok (ref_name_partial (bs "main")) = true
   /\ is_ok (ref_name_partial (bs "@")) = false /\ is_ok (tag_name (bs "@")) = true
-  /\ is_ok (ref_name_partial (bs "a.lock/b")) = false /\ has_slash (bs "a/b") = true.
+  /\ is_ok (ref_name_partial (bs "a.lock/b")) = false /\ has_slash (bs "a/b") = true
+  /\ has_slash (bs "HEAD") = false /\ existsb (beqb x00) (bs "refs/heads/main") = false.
+Proof. vm_compute. repeat split. Qed.
+
+Example ex_sanitize : ref_sanitize (bs "/") = Ok (bs "-") /\ ref_sanitize (bs ".lock.lock") = Ok (bs "-")
+  /\ ref_sanitize (bs "@/") = Ok (bs "-") /\ ref_sanitize (bs "refs//heads/a b.lock/.x.") = Ok (bs "refs/heads/a-b/-x-").
 Proof. vm_compute. repeat split. Qed.
